@@ -24,7 +24,7 @@ ASSUMPTIONS = [
     "formalism agreement of the reference itself is C04's subject (tolerance here 1e-8 relative)",
 ]
 BOUNDS = {
-    "quick": "2 masks x PSF kind alternating x 6 object lists x 2 formalism settings x 48 slot assignments; histories to depth 3",
+    "quick": "2 masks x PSF kind alternating x 4 object lists x 2 formalism settings x 48 slot assignments; 9 events (4 read orders x fresh/reused objects + interleaved pair); histories to depth 3",
     "thorough": "6 masks x both PSF kinds x 8 object lists x 2 formalism settings x 48 slot assignments; histories to depth 4",
 }
 
@@ -59,7 +59,7 @@ LISTS = [
 
 def cases(tier, seed):
     masks = [0b111111111, 0b101110111] if tier == "quick" else [0b111111111, 0b101110111, 0b000111010, 0b110011001, 0b010111010, 0b111101111]
-    lists = LISTS[:6] if tier == "quick" else LISTS
+    lists = [LISTS[i] for i in (0, 1, 3, 4)] if tier == "quick" else LISTS
     depth = 3 if tier == "quick" else 4
     for mi, bits in enumerate(masks):
         for li, ol in enumerate(lists):
